@@ -9,6 +9,7 @@ import (
 	"path"
 	"sort"
 	"strings"
+	"sync/atomic"
 	"testing"
 	"time"
 
@@ -58,7 +59,7 @@ func vfGenLsName(t *rapid.T, i int, kind string) []byte {
 }
 
 func vfGenC16(t *rapid.T) vfCaseC16 {
-	c := vfCaseC16{Kind: rapid.SampledFrom([]string{"rs", "rs", "os"}).Draw(t, "kind"), Alloc: rapid.Bool().Draw(t, "alloc")}
+	c := vfCaseC16{Kind: rapid.SampledFrom([]string{"rs", "rs", "rs", "os"}).Draw(t, "kind"), Alloc: rapid.Bool().Draw(t, "alloc")}
 	c.Opts = vfGenSmallOpts(t)
 	c.API = rapid.SampledFrom([]string{"ReadDir", "ReadDir", "ReadDirContext", "Glob", "Walk"}).Draw(t, "api")
 	var n int
@@ -73,7 +74,7 @@ func vfGenC16(t *rapid.T) vfCaseC16 {
 	} else {
 		n = rapid.SampledFrom([]int{0, 1, 2, 127, 128, 129, 255, 256, 257, 300}).Draw(t, "nos")
 		if rapid.Bool().Draw(t, "drawn") {
-			n = rapid.IntRange(0, 140).Draw(t, "ndrawn")
+			n = rapid.IntRange(0, 20).Draw(t, "ndrawn")
 		}
 	}
 	for i := 0; i < n; i++ {
@@ -149,6 +150,22 @@ func vfRunC16(ctx *vfCtx, c vfCaseC16) {
 	}
 	var got []ent
 	var opErr error
+	// termination: a listing of n entries needs at most n+3 READDIRs (plus the
+	// Lstat/Stat traffic of Glob and Walk); far beyond that it will never end.
+	limit := 8*(len(c.Entries)+8) + 64
+	var runaway atomic.Bool
+	watch := make(chan struct{})
+	go func() {
+		defer close(watch)
+		if srv.link.C2S.WaitFrames(limit) {
+			runaway.Store(true)
+			srv.link.Client.Close()
+		}
+	}()
+	defer func() {
+		srv.link.C2S.AbortWait()
+		<-watch
+	}()
 	d, r := vfCall(func() (string, error) {
 		switch c.API {
 		case "ReadDir", "ReadDirContext":
@@ -193,6 +210,9 @@ func vfRunC16(ctx *vfCtx, c vfCaseC16) {
 		ctx.Failf("panic/"+vfPanicSite([]byte(r.Stack)), "%v\n%s", r.Panic, vfTrimStack([]byte(r.Stack)))
 	}
 	desc := fmt.Sprintf("%s on %s: %d entries, batch %d, eof %q, short %d", c.API, c.Kind, len(c.Entries), c.Batch, c.EOFMode, c.Short)
+	if runaway.Load() {
+		ctx.Failf("C16/never-terminates/"+c.Kind+"/"+c.API, "%s: the client had sent %d requests and was still going", desc, limit)
+	}
 	if opErr != nil {
 		ctx.Failf("C16/error/"+c.Kind+"/"+c.API, "%s failed: %v", desc, opErr)
 	}
